@@ -843,6 +843,64 @@ def c17_lengths(probes, traces):
     return lens
 
 
+def c06_abandon_scripts(tier):
+    """Directed, gate-driven: call A is abandoned (its context ends) while the broker holds back the answer. Calls B and
+    C of other kinds go to the same broker before and after the held answer is released: they must get their own
+    answers, and nothing may be written on A's connection while A's answer is outstanding."""
+    rng = random.Random(606)
+    out = []
+    # (kind of A, kinds of the calls that follow) -- everything is led / coordinated by broker 2
+    combos = [("fetch", ["listoffsets1", "produce"]), ("listoffsets1", ["fetch", "offsetfetch"]), ("produce", ["fetch", "listoffsets1"]),
+              ("offsetfetch", ["produce", "fetch"]), ("initproducerid", ["listoffsets1", "produce"])]
+
+    def base():
+        return cluster(brokers=(1, 2), boot=(1,), leaders1=(2, 2), leaders2=(2, 2), coord=2, txn=2, ctrlr=2, ttl=3000)
+
+    def follow(ops, kinds, k0):
+        return [{"op": dict(mkop(ops, kk, rng, t="t1", p=(i + k0) % 2), mustSucceed=True)} for i, kk in enumerate(kinds)]
+
+    for ci, (ka, after) in enumerate(combos):
+        for how in ("deadline", "cancel"):
+            if how == "cancel" and tier == "quick" and ci not in (0, 2):
+                continue
+            ops = Ops()
+            sc = base()
+            st = follow(ops, [ka], 0)                  # a connection to broker 2 exists and is idle
+            a = mkop(ops, ka, rng, t="t1", p=0)
+            a["fault"] = {"hold": True, "leg": 0}
+            if how == "deadline":
+                a["deadlineMs"] = 60
+            else:
+                a["cancelAfterMs"] = 5
+            st.append({"op": a})                        # returns with the context's error; the answer is still held
+            st += follow(ops, after, 0)                 # before the held answer is released
+            st += [{"release": a["o"]}, {"sleepMs": 30}]
+            st += follow(ops, after, 1)                 # and after
+            st += follow(ops, [ka], 1)
+            sc.update({"id": "c06-abandon-%s-%s" % (ka, how), "kind": "c06", "steps": st})
+            out.append(sc)
+    # two abandoned exchanges in a row (on two connections), then the others
+    for ci, (ka, kb, after) in enumerate([("fetch", "listoffsets1", ["produce", "offsetfetch"]), ("produce", "offsetfetch", ["fetch", "listoffsets1"])]):
+        ops = Ops()
+        sc = base()
+        st = follow(ops, [ka], 0)
+        held = []
+        for kk in (ka, kb):
+            a = mkop(ops, kk, rng, t="t1", p=1)
+            a["fault"] = {"hold": True, "leg": 0}
+            a["deadlineMs"] = 60
+            held.append(a)
+            st.append({"op": a})
+        st += follow(ops, after, 0)
+        st += [{"release": held[0]["o"]}, {"sleepMs": 20}]
+        st += follow(ops, after, 1)
+        st += [{"release": held[1]["o"]}, {"sleepMs": 20}]
+        st += follow(ops, after + [ka, kb], 0)
+        sc.update({"id": "c06-abandon-two-%d" % ci, "kind": "c06", "steps": st})
+        out.append(sc)
+    return out
+
+
 def c06_scripts(seed, n):
     rng = random.Random(seed * 104729 + 6)
     kinds = KINDS_LEADER + ["listoffsets", "metadata", "findcoordinator", "createtopics"] + KINDS_GROUP + KINDS_TXN
@@ -1019,7 +1077,8 @@ def run_part(ctx, prop):
         cov["cut_points"] = len(scripts)
         cov["frames"] = lens
     elif prop == "C06":
-        scripts = c06_scripts(ctx.seed, 120 if ctx.tier == "quick" else 2500)
+        directed = c06_abandon_scripts(ctx.tier)
+        scripts = directed + c06_scripts(ctx.seed, 120 if ctx.tier == "quick" else 2500)
     elif prop == "C09":
         scripts = c09_scripts(ctx.seed, ctx.tier)
     else:
@@ -1029,6 +1088,8 @@ def run_part(ctx, prop):
     if ctx.tier == "quick":
         rng = random.Random(ctx.seed)
         idx = sorted(rng.sample(range(len(scripts)), min(len(scripts), {"C17": 160, "C06": 30, "C09": 30}[prop])))
+        if prop == "C06":       # every directed journal is validated
+            idx = sorted(set(idx) | set(range(len(directed))))
     else:
         idx = list(range(len(scripts)))
     checked = monitor(ctx, scripts, traces, PROP_INVS[prop])
